@@ -115,6 +115,32 @@ func (g *Gen) genField(d fieldDomain, mode int) int64 {
 	}
 }
 
+// fieldEdges lists the boundary values of a field: ends of the Go type, ends of the specification range and their neighbours.
+func fieldEdges(d fieldDomain) []int64 {
+	var xs []int64
+	switch d.kind {
+	case "bool":
+		return []int64{0, 1}
+	case "freq":
+		xs = []int64{0, 99, 100, 101, 200, 1677721400, 1677721500, 1677721501, 1677721599, 1677721600, 1677721700, 3355443000, 3355443100, 3355443200, 4294967200, 4294967295}
+	case "dur":
+		xs = []int64{0, 1, -1, 3906249, 3906250, 3906251, 999999999, 1000000000, 4294967295 * 1000000000, 4294967296 * 1000000000, 4294967296*1000000000 - 1,
+			1<<63 - 1, -1 << 63, -1000000000, -3906250, 4294967295*1000000000 + 999999999}
+	default:
+		xs = []int64{d.lo, d.lo + 1, d.hi, d.hi - 1, d.slo, d.slo - 1, d.slo + 1, d.shi, d.shi + 1, d.shi - 1}
+	}
+	var out []int64
+	seen := map[int64]bool{}
+	for _, v := range xs {
+		if v < d.lo || v > d.hi || seen[v] {
+			continue
+		}
+		seen[v] = true
+		out = append(out, v)
+	}
+	return out
+}
+
 // genPayloadTok returns the canonical token of a random payload of the given type.
 func (g *Gen) genPayloadTok(name string, mode int) string {
 	if name == "ProprietaryMACCommandPayload" {
@@ -308,6 +334,24 @@ func (g *Gen) genDataFrame(reg []regEntry, o frameOpts) string {
 	if !o.valid && r.Chance(1, 20) && fport == "-" {
 		frm = []string{"D:" + hx(r.Bytes(1+r.Intn(4)))}
 	}
+	if !o.valid {
+		// elements that cannot be serialised (fields outside their wire width), commands outside port 0,
+		// several opaque elements: the error paths of the marshal / encrypt / decode-to-commands methods
+		switch r.Intn(12) {
+		case 0:
+			fopts = g.genCmds(reg, up, 15, 1+r.Intn(2))
+		case 1:
+			if fport != "-" {
+				frm = g.genCmds(reg, up, 60, r.Intn(3))
+			}
+		case 2:
+			fopts = []string{"D:" + hx(r.Bytes(1+r.Intn(5))), "D:" + hx(r.Bytes(1+r.Intn(5)))}
+		case 3:
+			if fport == "0" {
+				frm = []string{"D:" + hx(r.Bytes(1+r.Intn(5))), "D:" + hx(r.Bytes(1+r.Intn(5)))}
+			}
+		}
+	}
 	return fmt.Sprintf("%d %d %s MAC %d %s %d %s %s %s", mt, major, hx(r.Bytes(4)), r.U32Edge(), string(fc), r.U32Edge(), itemsTok(fopts), fport, itemsTok(frm))
 }
 
@@ -325,8 +369,14 @@ func (g *Gen) genCFList(valid bool) string {
 			if r.Chance(1, 4) {
 				f = 0
 			}
+			if r.Chance(1, 12) { // the ends of the 24-bit x 100 Hz field
+				f = uint32(r.Pick(100, 1677721500, 1677721400))
+			}
 			if !valid && r.Chance(1, 10) {
 				f = r.U32()
+				if r.Chance(1, 2) {
+					f = uint32(r.Pick(1677721600, 1677721700, 3355443100, 3355443200, 1677721501, 99))
+				}
 			}
 			parts[i] = strconv.FormatUint(uint64(f), 10)
 		}
@@ -365,6 +415,9 @@ func (g *Gen) genJoinFrame(kind string, valid bool) string {
 		return fmt.Sprintf("0 0 %s JR %s %s %d", mic, g.u64dec(), g.u64dec(), r.U16())
 	case "JA":
 		jn := uint32(r.Intn(1 << 24))
+		if r.Chance(1, 10) {
+			jn = uint32(r.Pick(0, 1, 1<<24-1, 1<<24-2))
+		}
 		rxd := r.Intn(16)
 		rx2 := r.Intn(16)
 		rx1 := r.Intn(8)
@@ -372,6 +425,9 @@ func (g *Gen) genJoinFrame(kind string, valid bool) string {
 			switch r.Intn(4) {
 			case 0:
 				jn = r.U32()
+				if r.Chance(1, 2) { // the first values outside the 24-bit field
+					jn = uint32(r.Pick(1<<24, 1<<24+1, 1<<25-1, 1<<25))
+				}
 			case 1:
 				rxd = r.Intn(256)
 			case 2:
